@@ -85,7 +85,9 @@ def single_clauses():
             g = s + d
             for op in OPS:
                 for neg in (False, True):
-                    tols = TOLS if op in ("==", "!=") else [None]
+                    # a tolerance written on an ordering operator does not widen it ("the ordering operators compare
+                    # state with goal"): goals within |tol| of the state, on either side
+                    tols = TOLS if op in ("==", "!=") else ([None, 0.5, -0.5] if abs(d) <= 0.5 and not neg else [None])
                     for tol in tols:
                         for indirect in (False, True):
                             c = {"kind": "cmp", "state": ".q.s", "op": op, "neg": neg, "tol": tol,
